@@ -735,22 +735,36 @@ SaveAcquire(t) ==
   /\ up /\ spc[t] = "blocked" /\ sv[t].gen \notin slock /\ Prompt0 /\ ~GateReady
   /\ SaveAcq(t)
 
-\* metadata.Save returns, the rest of Save runs, Save returns
-SaveRet(t, ok) ==
-  /\ UNCHANGED wind
-  /\ up /\ spc[t] = "storing" /\ Prompt
-  /\ (ok => ReadOnly \/ sv[t].wr = Writable(t))
-  /\ (~ok => FailSaves /\ EnvOK /\ ~ReadOnly)
-  /\ (t = "main" => ~clo.on /\ (GapReopen \/ opener # "timer"))
+\* metadata.Save returns. On success the rest of Save runs and Save returns; on failure the thread goes on to
+\* stream.MarkDirtyOffsets, whose entry is a pause point (vhook "save.remark"): it still holds the save lock there
+Fixed == "F1" \notin Bugs
+SaveFinish(t, ok, pre) ==      \* the rest of Save after the store call (and, on failure, the re-mark): unlock, return
   /\ spc' = [spc EXCEPT ![t] = "idle"]
   /\ slock' = slock \ {sv[t].gen}
   /\ UNCHANGED <<slog, fo, wire, store, info, cnt, osnap, ouuid, ocatch, oendclosed, ocnt, offs, rng, open, obsNil, active,
                  balancing, finClose, finEnd, rebalances, stopped, ctxs, tokC, tokE, waits, wpark, cur, rlock, cgen,
                  dcwc, opener, opc, opened, live, foleft, lpart, rpc, dpc, reop, rmVars, scr, sinfo>>
   /\ SaveRetBody(t, ok)
-  /\ LET evs == (IF ReadOnly THEN <<>> ELSE <<[ev |-> "SaveEnd", t |-> t, ok |-> ok]>>) \o SaveRetEvs(t) IN
+  /\ LET evs == pre \o SaveRetEvs(t) IN
      IF t = "main" THEN MainStreamClose(evs, dcwc)
      ELSE /\ Emit(evs) /\ UNCHANGED <<up, mpc, cwc, oclosed, clo, timers>>
+SaveRet(t, ok) ==
+  /\ UNCHANGED wind
+  /\ up /\ spc[t] = "storing" /\ Prompt
+  /\ (ok => ReadOnly \/ sv[t].wr = Writable(t))
+  /\ (~ok => FailSaves /\ EnvOK /\ ~ReadOnly)
+  /\ (t = "main" => ~clo.on /\ (GapReopen \/ opener # "timer"))
+  /\ LET endEv == IF ReadOnly THEN <<>> ELSE <<[ev |-> "SaveEnd", t |-> t, ok |-> ok]>> IN
+     IF ok \/ ~Fixed
+     THEN SaveFinish(t, ok, endEv)
+     ELSE /\ spc' = [spc EXCEPT ![t] = "remark"] /\ Emit(endEv)
+          /\ UNCHANGED <<envVars, obsvVars, strVars, synVars, mpc, dcwc, opener, opc, opened, live, foleft, lpart, clo, sv, rpc, dpc, reop, rmVars, scr, sinfo>>
+\* ... MarkDirtyOffsets puts the marks of the failed save back, Save unlocks and returns
+SaveRemark(t) ==
+  /\ UNCHANGED wind
+  /\ up /\ spc[t] = "remark" /\ Prompt
+  /\ (t = "main" => ~clo.on /\ (GapReopen \/ opener # "timer"))
+  /\ SaveFinish(t, FALSE, <<>>)
 
 -----------------------------------------------------------------------------
 (* stream.Rebalance (l.278-309) called by a notification thread t \in {"bus","api"} or re-armed on a  *)
@@ -858,7 +872,9 @@ End(v, c) ==
   /\ UNCHANGED wind
   /\ UNCHANGED <<rmVars, scr, sinfo>>
   /\ up /\ ~Busy /\ v \in live /\ dpc[v] = "idle" /\ v \notin reop /\ wire[v] = <<>>
-  /\ (c # "closed" => EnvOK /\ cnt.ends < MaxEnds /\ c \in EndCauses /\ open /\ ~clo.on /\ ~balancing /\ mpc = "running")
+  \* (a stream that is already open may end while Open() is still opening the others)
+  /\ (c # "closed" => EnvOK /\ cnt.ends < MaxEnds /\ c \in EndCauses /\ (open \/ (opc = "opening" /\ v \in opened)) /\ ~clo.on
+                       /\ (open => ~balancing /\ mpc = "running"))
   /\ (c = "closed" => (clo.on /\ v \notin clo.left) \/ (obsNil /\ ~open))
   /\ cnt' = [cnt EXCEPT !.ends = IF c = "closed" THEN @ ELSE @ + 1]
   /\ live' = live \ {v}
@@ -881,17 +897,27 @@ End(v, c) ==
           /\ UNCHANGED reop
 
 \* the re-open request of v is answered
-ReopenRet(v, ok) ==
+\* a fail-over discards what the old branch had beyond r: events above r are gone, a snapshot that was open at r ends there,
+\* later snapshots never existed; the new branch goes on from r with snapshots of its own (Gen)
+Trunc(h, r) ==
+  LET kept == SelectSeq(h, LAMBDA x : IF x.k = "mark" THEN x.s <= r ELSE x.q <= r) IN
+  [i \in 1..Len(kept) |-> IF kept[i].k = "mark" /\ kept[i].e > r THEN [kept[i] EXCEPT !.e = r] ELSE kept[i]]
+ReopenRet(v, res, r) ==
   /\ UNCHANGED wind
   /\ UNCHANGED <<rmVars, scr, sinfo>>
-  /\ up /\ v \in reop /\ ok /\ Prompt
+  /\ up /\ v \in reop /\ res \in {"ok", "rb"} /\ Prompt
   \* failing re-opens (1 s back-off, panic after 5) are explored by the C15 fault driver
+  \* the node answers ROLLBACK(r) (the vBucket failed over and lost what it had above r): the same observer goes on
+  /\ (res = "rb" => Rollbacks /\ EnvOK /\ offs[v] # NoOff /\ offs[v].seq > 0 /\ r <= offs[v].seq)
+  /\ (res # "rb" => r = 0)
   /\ reop' = reop \ {v}
   /\ live' = live \cup {v}
   /\ ouuid' = [ouuid EXCEPT ![v] = fo[v]]
-  /\ wire' = [wire EXCEPT ![v] = WireFrom(slog[v], offs[v].seq, <<>>)]
-  /\ Emit(<<OpenRetEv(v, TRUE, FALSE, 0)>>)
-  /\ UNCHANGED <<up, slog, fo, store, info, cnt, osnap, ocatch, oclosed, oendclosed, ocnt, strVars, synVars, mpc, dcwc, opener,
+  /\ slog' = IF res = "rb" THEN [slog EXCEPT ![v] = Trunc(@, r)] ELSE slog
+  /\ ocatch' = IF res = "rb" THEN [ocatch EXCEPT ![v] = offs[v].seq] ELSE ocatch
+  /\ wire' = [wire EXCEPT ![v] = WireFrom(slog'[v], IF res = "rb" THEN r ELSE offs[v].seq, <<>>)]
+  /\ Emit(<<OpenRetEv(v, TRUE, res = "rb", IF res = "rb" THEN offs[v].seq ELSE 0)>>)
+  /\ UNCHANGED <<up, fo, store, info, cnt, osnap, oclosed, oendclosed, ocnt, strVars, synVars, mpc, dcwc, opener,
                  opc, opened, foleft, lpart, clo, spc, sv, rpc, dpc>>
 
 \* a wait goroutine parked at wait.close / wait.end finishes (l.403-411); when it closes the stop
@@ -972,6 +998,7 @@ Parked ==
   \cup {t \o "@save.prelock" : t \in {u \in SaveThreads : spc[u] = "want"}}
   \cup {t \o "@save.take" : t \in {u \in SaveThreads : spc[u] = "take"}}
   \cup {t \o "@md.Save" : t \in {u \in SaveThreads : spc[u] = "storing"}}
+  \cup {t \o "@save.remark" : t \in {u \in SaveThreads : spc[u] = "remark"}}
   \cup {"lib:CloseStream:" \o ToString(v) : v \in (IF clo.on THEN clo.left ELSE {})}
   \cup (IF scr = "wait" THEN {"scr@GetVBucketSeqNos"} ELSE {})
   \cup (IF rpc["api"] = "want" THEN {"api@rb.prelock"} ELSE {})
@@ -1014,6 +1041,7 @@ Step0(l) ==
     [] l.a = "SaveTake"   -> SaveTake(l.t)
     [] l.a = "StoreWrite" -> StoreWrite(l.t, l.vb)
     [] l.a = "SaveRet"    -> SaveRet(l.t, l.ok)
+    [] l.a = "SaveRemark" -> SaveRemark(l.t)
     [] l.a = "CloseCall"  -> CloseCall
     [] l.a = "CloseRet"   -> CloseRet(l.vb)
     [] l.a = "CloseEmpty" -> CloseEmpty
@@ -1021,7 +1049,7 @@ Step0(l) ==
     [] l.a = "RbLock"     -> RbLock(l.t)
     [] l.a = "TimerFire"  -> TimerFire(l.i)
     [] l.a = "End"        -> End(l.vb, l.cause)
-    [] l.a = "ReopenRet"  -> ReopenRet(l.vb, l.ok)
+    [] l.a = "ReopenRet"  -> ReopenRet(l.vb, l.res, l.r)
     [] l.a = "WaitFin"    -> WaitFin(l.k)
     [] l.a = "Crash"      -> Crash
     [] l.a = "Flush"      -> Flush(l.vb)
@@ -1060,12 +1088,14 @@ Labels ==
   \cup [a : {"SaveLock", "SaveTake", "SaveAcquire"}, t : IF AutoCkpt THEN SaveThreads ELSE Savers]
   \cup [a : {"StoreWrite"}, t : IF AutoCkpt THEN SaveThreads ELSE Savers, vb : VB]
   \cup [a : {"SaveRet"}, t : IF AutoCkpt THEN SaveThreads ELSE Savers, ok : IF FailSaves THEN BOOLEAN ELSE {TRUE}]
+  \cup (IF FailSaves THEN [a : {"SaveRemark"}, t : IF AutoCkpt THEN SaveThreads ELSE Savers] ELSE {})
   \cup (IF Life THEN [a : {"CloseEmpty"}] \cup [a : {"WaitFin"}, k : {"close", "end"}] \cup [a : {"CloseRet"}, vb : VB]
                      \cup [a : {"End"}, vb : VB, cause : EndCauses \cup {"closed"}] ELSE {})
   \cup (IF AllowClose THEN [a : {"CloseCall"}] ELSE {})
   \cup (IF MaxNotify > 0 THEN [a : {"Notify"}, t : {"bus", "api"}, member : 1..NVB, total : 1..NVB]
                               \cup [a : {"RbLock"}, t : RbThreads] \cup [a : {"TimerFire"}, i : 1..MaxTimers] ELSE {})
-  \cup (IF MaxEnds > 0 THEN [a : {"ReopenRet"}, vb : VB, ok : {TRUE}] ELSE {})
+  \cup (IF MaxEnds > 0 THEN [a : {"ReopenRet"}, vb : VB, res : {"ok"}, r : {0}] ELSE {})
+  \cup (IF MaxEnds > 0 /\ Rollbacks THEN [a : {"ReopenRet"}, vb : VB, res : {"rb"}, r : 0..MaxSeq] ELSE {})
 
 \* API-visible state, sampled after every step while the process is up (Stream.GetOffsets, IsOpen)
 StateEvs == IF up' THEN <<[ev |-> "State", offsets |-> offs', open |-> open', active |-> active', thr |-> thr']>> ELSE <<>>
@@ -1087,6 +1117,13 @@ NewMarks(l) ==
       armed == cur > 0 /\ timers[cur].st = "armed"
   IN
   (IF a = "Notify" /\ opener = "timer" THEN {"notifyDuringReopen"} ELSE {})
+  \cup (IF a = "ReopenRet" /\ l.res = "rb" THEN {"reopenRollback"} ELSE {})
+  \cup (IF a = "Push" /\ l.x.k = "mark" /\ "reopenRollback" \in marks /\ osnap[l.vb] # NoSnap /\ l.x.e <= osnap[l.vb][2]
+            /\ <<l.x.s, l.x.e>> # osnap[l.vb] THEN {"reopenRbOtherSnapshot"} ELSE {})
+  \cup (IF a = "Push" /\ IsDoc(l.x) /\ "reopenRbOtherSnapshot" \in marks /\ (ocatch[l.vb] < 0 \/ l.x.q > ocatch[l.vb])
+         THEN {"deliveredAfterReopenRollback"} ELSE {})
+  \cup (IF a = "End" /\ l.cause \in TransientCauses /\ opc = "opening" THEN {"transientEndWhileOpening"} ELSE {})
+  \cup (IF a = "End" /\ l.cause \notin TransientCauses /\ l.cause # "closed" /\ opc = "opening" THEN {"finalEndWhileOpening"} ELSE {})
   \cup (IF a = "GateOpen" /\ ~oclosed[l.vb] /\ IsDoc(dwait[l.vb]) /\ ~dwait[l.vb].old /\ ~Reserved(dwait[l.vb]) THEN {"gatePassDoc"} ELSE {})
   \cup (IF a = "GateOpen" /\ ~oclosed[l.vb] /\ dwait[l.vb].k \in {"adv", "sys"} THEN {"gatePassNonDoc"} ELSE {})
   \cup (IF a = "GateOpen" /\ ~oclosed[l.vb] /\ dwait[l.vb].k = "mark" /\ dwait[l.vb].s > 0 THEN {"gatePassMarker"} ELSE {})
@@ -1119,6 +1156,13 @@ NewMarks(l) ==
   \cup (IF a = "Push" /\ l.x.k = "mark" /\ osnap[l.vb] # NoSnap /\ \E i \in DOMAIN ctxs : ctxs[i].vb = l.vb /\ ctxs[i].gen = cgen
          THEN {"markerAfterDelivery"} ELSE {})
   \cup (IF a = "SaveRet" /\ ~l.ok THEN {"failedSave"} ELSE {})
+  \cup (IF a = "SaveRet" /\ ~l.ok /\ spc["main"] = "blocked" THEN {"finalSaveBehindFailingSave"} ELSE {})
+  \cup (IF a = "CloseCall" /\ \E t \in SaveThreads : spc[t] = "storing" /\ \E v \in sv[t].ddirty : sv[t].dump[v] # NoOff /\ v \notin sv[t].wr
+                                                                         /\ (store[v] = NoOff \/ store[v].seq < sv[t].dump[v].seq)
+         THEN {"closeWhileUnstoredDumpInFlight"} ELSE {})
+  \cup (IF a = "SaveRet" /\ ~l.ok /\ spc["main"] = "blocked" /\ "closeWhileUnstoredDumpInFlight" \in marks
+         THEN {"finalSaveBehindFailingUnstoredSave"} ELSE {})
+  \cup (IF a = "SaveRet" /\ ~l.ok /\ \E u \in SaveThreads \ {l.t} : spc[u] = "blocked" THEN {"saveBehindFailingSave"} ELSE {})
   \cup (IF a = "SaveRet" /\ ~l.ok /\ spc[l.t] = "storing" /\ dirty \ sv[l.t].ddirty # {} THEN {"otherVbMarkedDuringFailingSave"} ELSE {})
   \cup (IF a = "End" /\ l.cause \in TransientCauses /\ offs[l.vb] # NoOff /\ osnap[l.vb] # NoSnap
             /\ <<offs[l.vb].ss, offs[l.vb].se>> # osnap[l.vb] /\ offs[l.vb].seq > 0 THEN {"transientAfterNewMarker"} ELSE {})
